@@ -10,7 +10,7 @@ from simkit.universe import Universe, kind_of
 PROPERTY = "C12"
 ENGINE = "session"
 LEVEL = "exploration"
-BUDGET = {"quick": (12000, 45), "thorough": (600000, 540)}
+BUDGET = {"quick": (30000, 60), "thorough": (600000, 540)}
 RULE = ("seeded documents (3-12 Sections, depth <= 4) with 1-3 linking Sections constrained as the "
         "quantifier says (target no relative of the linker, no target is/contains/lies inside a "
         "linker), links absolute or relative, includes as file: URL#path of a second generated file; "
